@@ -28,6 +28,7 @@ def c14(run, a):
     info = vlib.extract()
     run.cov['extracted'] = info.get('CmpImpls.lean')
     props_ok, cert_ok = vlib.standard_lean_phase(run, 'BytesVerif.Props.C14', 'BytesVerif.Cert.C14')
+    vlib.override_cert(run, ['Cmp'])
     run.trusted += [
         "tools/extract.py (T1): impl bodies -> (operator, left root, right root) after stripping byte-view coercions; fail-closed",
         "delegation between impls (`*other == *self`) is modelled as a byte comparison in operand order; T2 executes every impl",
@@ -91,6 +92,7 @@ def c15(run, a):
     info = vlib.extract()
     run.cov['extracted'] = info.get('FmtTables.lean')
     props_ok, cert_ok = vlib.standard_lean_phase(run, 'BytesVerif.Props.C15', 'BytesVerif.Cert.C15')
+    vlib.override_cert(run, ['Fmt'])
     run.trusted += [
         "tools/extract.py (T1): if/else-if chain, format strings, fmt_impl!/serde_impl! macro bodies -> tables; fail-closed",
         "core::fmt rendering of {:02x}/{:02X}/{} of a char is modelled (Piece.render) and tied by T2 on all 256 bytes",
